@@ -188,6 +188,7 @@ func init() {
 	props["C38"].Real = append(props["C38"].Real, "40% of the runs: world w6 (the watcher inside the real Core: file rewrites 0 ms..2.5 s apart, the configuration in force 5 s after the last write must be the file's; conf.Load, Core.run, reloadConf real; socket-owning components are recording stand-ins)")
 	props["C38"].LevelNote = strings.Replace(props["C38"].LevelNote, "Core's reaction is modelled by the consumer (level 2, the watcher inside Core, is not built)", "in world w2a Core's reaction is modelled by the consumer; level 2, the watcher inside the real Core, runs in world w6 with complete (never torn) file contents", 1)
 	props["C33"].Also = []string{"s3"}
+	props["C33"].LevelText += "; in world s3 the order in which the server's inboundTrack.push hands subgroups on to its consumer, with one goroutine per received group, must be strictly increasing"
 	props["C33"].Real = append(props["C33"].Real, "40% of the runs: world s3 (internal/servers/moq.inboundTrack.push, the place where the MoQ server uses the reorderer and hands the subgroups on to the path: one goroutine per received group, as the server has one per QUIC stream, under the seeded scheduler; the order in which the consumer is entered must be strictly increasing)")
 	props["C18"].Also = []string{"w5"}
 	props["C18"].Real = append(props["C18"].Real, "40% of the runs: world w5 (real HLS sessions as readers of a path whose publisher reconnects while sessions are being set up: every session alive in the quiet period after the run must be among the readers of its path)")
@@ -201,7 +202,7 @@ func init() {
 	props["C20"].LevelNote = strings.Replace(props["C20"].LevelNote, "the per-protocol session code is not covered", "runOnRead/runOnUnread and runOnConnect/runOnDisconnect are decided across real RTMP connections (w7) and real HLS sessions (w5); RTSP, SRT, WebRTC, MoQ sessions are not covered", 1)
 	props["C03"].Real = append(props["C03"].Real, "40% of the runs: world w5 (real HLS server: the session code that turns an HTTP request into a reader of a path, judged against the recorded decisions of the authentication manager)")
 	props["C40"].Real = append(props["C40"].Real, "10% of the runs each: world w2 (real Core with concurrent API configuration edits and reads, path manager, configuration watcher, record cleaner), world w3 (recorder, playback list/get handlers with their parsing goroutines, record store), world w7 (real RTMP server with real gortmplib clients publishing and reading, API list and kick of live connections, shutdown with connections open) and world w5 (real HLS server on the real path manager: a path of a regular-expression entry whose publisher leaves and returns while an API client lists and kicks its HLS sessions), all built with the race detector")
-	props["C40"].LevelNote += "; metrics scrapes over HTTP are outside; of the real session kick paths only RTMP's is exercised (w7), the other front-ends are stubs; data races are those the Go race detector reports under the explored schedules"
+	props["C40"].LevelNote += "; metrics scrapes over HTTP are outside; of the real session kick paths RTMP's (w7) and HLS's (w5) are exercised, the other front-ends are stubs; data races are those the Go race detector reports under the explored schedules"
 }
 
 // ---------------------------------------------------------------------------
